@@ -356,7 +356,8 @@ func lateFaultExec(c *Ctx, op string) {
 					return
 				default:
 				}
-				if _, e := os.Lstat(filepath.Join(dst, "zz-last")); e == nil {
+				// (the last thing PlaceFile does to an entry is its mtime: once the last entry carries it, only the closing pass is left)
+				if st, e := os.Lstat(filepath.Join(dst, "zz-last")); e == nil && st.ModTime().Unix() == t0.Unix() {
 					deadline := time.Now().Add(2 * time.Second)
 					for time.Now().Before(deadline) {
 						if syscall.Mount("tmpfs", mnt, "tmpfs", syscall.MS_REMOUNT|syscall.MS_RDONLY, "size=64m") == nil {
